@@ -159,7 +159,7 @@ impl Prop for C01 {
         ]
     }
     fn cases(tier: Tier) -> u64 {
-        tier.pick(20_000, 300_000)
+        tier.pick(20_000, 80_000)
     }
     fn strategy(tier: Tier) -> BoxedStrategy<Case> {
         prop_oneof![
